@@ -8,11 +8,11 @@ ID = "C23"
 THEOREMS = [
     "C23_unpad_pad", "C23_pad_length", "C23_cbc", "C23_cfb", "C23_ofb", "C23_ctr", "C23_roundtrip",
     "C23_names_paired", "C23_accepted_alike", "C23_cipher_length", "C23_hypotheses_satisfiable",
-    "C23_ip_roundtrip", "C23_ip_text_parses", "C23_ip_mapped_refuted", "C23_ip_pfx_collision_refuted",
+    "C23_ip_roundtrip", "C23_pfx_invertible", "C23_ip_roundtrip_pfx", "C23_ip_text_parses", "C23_ip_mapped_refuted", "C23_ip_pfx_collision_refuted",
     "C23_ip_pfx_equal_halves_refuted", "C23_ip_hypotheses_satisfiable",
 ]
 IMPORTS = ("From Coq Require Import String.\nFrom Coq Require Import List NArith ZArith.\n"
-           "From VRL Require Import Base.Bytes Base.Lit Model.Padding Model.Modes Model.Aes Model.Ip Model.CipherGlue "
+           "From VRL Require Import Base.Bytes Base.Lit Model.Padding Model.Modes Model.Aes Model.Ip Model.CipherGlue Model.IpPfx "
            "Corr.C23.\nLocal Open Scope string_scope.")
 MANIFEST = {
     "level": "proof",
@@ -33,8 +33,9 @@ MANIFEST = {
             "lengths for the AEADs; decrypt(encrypt(p)) = p is searched directly on the implementation for all names, "
             "plaintext lengths 0..48 and random up to 1 KiB, right and wrong key/IV sizes, and all address kinds.",
     "note": "Partial where a library primitive is involved: the block cipher (aes crate), the AEAD/SIV seal/open pairs "
-            "(chacha20poly1305, crypto_secretbox, aes-siv) and the two ipcrypt permutations are universally quantified "
-            "arguments with the inverse law as hypothesis; the modes and paddings (cbc, cfb-mode, ofb, ctr, block-padding "
+            "(chacha20poly1305, crypto_secretbox, aes-siv) and the ipcrypt-deterministic permutation are universally quantified "
+            "arguments with the inverse law as hypothesis; ipcrypt-pfx IS modelled (Model/IpPfx.v) and proved invertible over "
+            "any block cipher (C23_pfx_invertible), and compared byte for byte; the modes and paddings (cbc, cfb-mode, ofb, ctr, block-padding "
             "crates) ARE modelled and proved. Model/Aes.v is used only to instantiate the cipher in the correspondence run "
             "(pinned to FIPS-197 appendix C vectors), no theorem depends on it. str::to_uppercase is modelled for ASCII + "
             "U+0131 + U+017F (the only characters that upper-case into a single ASCII letter). Known findings: "
